@@ -5,6 +5,7 @@ import (
 	"fmt"
 	"math/rand"
 	"reflect"
+	"regexp"
 	"sort"
 	"strconv"
 	"strings"
@@ -58,6 +59,8 @@ func (tagRec) Opened(context.Context, time.Time)                       {}
 func (tagRec) Closed(context.Context, time.Time)                       {}
 
 var lastFuncTag int
+
+var negTag = regexp.MustCompile(`=90([0-9])`)
 
 // leafPaths lists the leaf fields of a struct type (exported only), in declaration order, with dotted paths.
 func leafPaths(t reflect.Type, prefix string) []string {
@@ -156,7 +159,7 @@ func getLeaf(f reflect.Value) string {
 		for i := range args {
 			args[i] = reflect.Zero(t.In(i))
 		}
-		lastFuncTag = -1
+		lastFuncTag = 899 // a function that is none of the harness's tagged ones (e.g. a library default)
 		f.Call(args)
 		return strconv.Itoa(lastFuncTag)
 	case reflect.Slice:
@@ -272,8 +275,60 @@ func (mergeSuite) Gen(r *rand.Rand, i int) Case {
 	for j := 0; j < 6; j++ {
 		c.Ops = append(c.Ops, "m "+encodeSide(r, t, paths, 1, nil)+" | "+encodeSide(r, t, paths, 2, nil))
 	}
+	// factory layering (hystrix.Factory, responsetimeslo.Factory): per-circuit constructors from last to first, then the
+	// factory's own config, then the library defaults — a fold of Merge
+	if _, ok := factoryResult[name]; ok {
+		dflt := factoryResult[name](t, nil, reflect.New(t).Elem())
+		dparts := make([]string, len(paths))
+		for j, p := range paths {
+			dparts[j] = p + "=" + getLeaf(fieldByPath(dflt, p))
+		}
+		for j := 0; j < 10; j++ {
+			k := r.Intn(4)
+			layers := make([]string, 0, k+2)
+			for l := 0; l <= k; l++ { // k constructors + the base config
+				// the factory CONSTRUCTS the object: keep the values constructible (no negative bucket counts)
+				layers = append(layers, negTag.ReplaceAllString(encodeSide(r, t, paths, 1+l, nil), "=$1"))
+			}
+			layers = append(layers, strings.Join(dparts, ";"))
+			c.Ops = append(c.Ops, "f "+strings.Join(layers, " | "))
+		}
+		c.Tags = append(c.Tags, "factory-fold")
+	}
 	c.Tags = append(c.Tags, fmt.Sprintf("leaves-%d", len(paths)))
 	return c
+}
+
+// factoryResult runs the REAL factory of a config type on constructor layers + base config and returns the
+// configuration the created object ends up with
+var factoryResult = map[string]func(t reflect.Type, ctors []reflect.Value, base reflect.Value) reflect.Value{
+	"hystrix.ConfigureCloser": func(t reflect.Type, ctors []reflect.Value, base reflect.Value) reflect.Value {
+		f := hystrix.Factory{ConfigureCloser: base.Interface().(hystrix.ConfigureCloser)}
+		for _, c := range ctors {
+			v := c.Interface().(hystrix.ConfigureCloser)
+			f.CreateConfigureCloser = append(f.CreateConfigureCloser, func(string) hystrix.ConfigureCloser { return v })
+		}
+		cl := f.Configure("x").General.OpenToClosedFactory().(*hystrix.Closer)
+		return reflect.ValueOf(cl.Config())
+	},
+	"hystrix.ConfigureOpener": func(t reflect.Type, ctors []reflect.Value, base reflect.Value) reflect.Value {
+		f := hystrix.Factory{ConfigureOpener: base.Interface().(hystrix.ConfigureOpener)}
+		for _, c := range ctors {
+			v := c.Interface().(hystrix.ConfigureOpener)
+			f.CreateConfigureOpener = append(f.CreateConfigureOpener, func(string) hystrix.ConfigureOpener { return v })
+		}
+		op := f.Configure("x").General.ClosedToOpenFactory().(*hystrix.Opener)
+		return reflect.ValueOf(op.Config())
+	},
+	"responsetimeslo.Config": func(t reflect.Type, ctors []reflect.Value, base reflect.Value) reflect.Value {
+		f := responsetimeslo.Factory{Config: base.Interface().(responsetimeslo.Config)}
+		for _, c := range ctors {
+			v := c.Interface().(responsetimeslo.Config)
+			f.ConfigConstructor = append(f.ConfigConstructor, func(string) responsetimeslo.Config { return v })
+		}
+		tr := f.CommandProperties("x").Metrics.Run[0].(*responsetimeslo.Tracker)
+		return reflect.ValueOf(tr.Config())
+	},
 }
 
 func (mergeSuite) Nontrivial(tags map[string]int) bool { return true }
@@ -305,6 +360,27 @@ func (mergeSuite) Run(h map[string]string, ops []string) []string {
 					res = fmt.Sprintf("panic:%v", r)
 				}
 			}()
+			if strings.HasPrefix(op, "f ") {
+				layers := strings.Split(strings.TrimPrefix(op, "f "), " | ")
+				fr, ok := factoryResult[h["type"]]
+				if !ok || len(layers) < 2 {
+					return "bad-op"
+				}
+				var ctors []reflect.Value
+				for _, l := range layers[:len(layers)-2] {
+					v := reflect.New(t).Elem()
+					decodeInto(v, l)
+					ctors = append(ctors, v)
+				}
+				base := reflect.New(t).Elem()
+				decodeInto(base, layers[len(layers)-2])
+				got := fr(t, ctors, base)
+				parts := make([]string, len(paths))
+				for j, p := range paths {
+					parts[j] = p + "=" + getLeaf(fieldByPath(got, p))
+				}
+				return strings.Join(parts, ";")
+			}
 			body := strings.TrimPrefix(op, "m ")
 			sides := strings.Split(body, " | ")
 			recv := reflect.New(t)
